@@ -836,6 +836,12 @@ Varable failures: {var_failed}
         see PseudoNetCDFFile.applyAlongDimensions
         """
         outf = PseudoNetCDFFile.applyAlongDimensions(self, *args, **kwds)
+        if 'TSTEP' in kwds and 'TFLAG' in outf.variables:
+            # the time flags are not data: a reduced/filtered TFLAG (e.g. a
+            # mean of YYYYJJJ values) is meaningless and no longer matches
+            # SDATE/STIME. Rebuild it from SDATE, STIME and TSTEP for the
+            # new number of steps.
+            del outf.variables['TFLAG']
         if 'LAY' in kwds:
             nlays = len(self.dimensions['LAY'])
             layf = PseudoNetCDFFile()
